@@ -544,6 +544,11 @@ fn cli_sigint_layer(col: &Collector) {
 
 pub fn run(ctx: &Ctx) -> i32 {
     let col = Collector::new();
+    // the small fixed layers first: a wall-clock budget that runs out on a loaded machine cuts the large enumeration, not these
+    big_input_layer(&col, ctx);
+    for f in bad_joined_layer(&col) {
+        col.fail(f);
+    }
     let w = world();
     let maxlen = ctx.tier.pick(3, 5) as u32;
     let k = alphabet().len() as u64;
@@ -616,11 +621,7 @@ pub fn run(ctx: &Ctx) -> i32 {
             }
         }
         col.layer("follow-mode interrupt (FollowFileExecutor in child processes)", nf, true, json!({"interrupt_points": "before load 0..4", "statements": 3}));
-        big_input_layer(&col, ctx);
-    for f in bad_joined_layer(&col) {
-        col.fail(f);
-    }
-    cli_sigint_layer(&col);
+        cli_sigint_layer(&col);
     }
     finish(
         ctx,
